@@ -201,6 +201,9 @@ def make_alg(cls):
     return cls()
 
 
+ARITY_CAP = {("slogdet", "Kronecker"): 3}
+
+
 class RuleRunner:
     def __init__(self, chk, prop, fname, contract, contracts, spec=None):
         self.chk, self.prop, self.fname, self.contract, self.contracts = chk, prop, fname, contract, contracts
@@ -226,6 +229,10 @@ class RuleRunner:
                 continue
             has_var = any(c[0] == "op" and c[1] in VARIADIC for c in choice)
             arities = self.spec.get("arities", [1, 2, 3]) if has_var else [0]
+            for c in choice:      # arity caps where the 4-factor query is beyond the solvers' reliable reach (a coverage bound, stated in the evidence)
+                cap = ARITY_CAP.get((self.fname, c[1])) if c[0] == "op" else None
+                if cap is not None:
+                    arities = [a_ for a_ in arities if a_ <= cap]
             dtypes = self.spec.get("dtypes", [np.float64, np.complex128])
             anns = self.spec.get("anns", [()])
             extra = self.spec.get("extra", lambda choice, sig: [{}])(choice, sig)
